@@ -30,17 +30,22 @@ def exact(arr):
 
 def run_query(fd, q):
     eids = [int(x) for x in fd.elements.ids]
+    DT = {'float': float, 'int': np.int64, 'int32': np.int32, 'bool': bool}
     if q['kind'] == 'n2e':
-        data = np.array(q['data'], dtype=float)
+        data = np.array(q['data'], dtype=DT[q.get('dtype', 'float')])
+        if q.get('by_name'):
+            fd.nodal_data.update_data(fd.nodes.ids, {'verif_field': data}, allow_overwrite=True)
+            return fd.convert_nodal2elemental('verif_field', calc_average=True), eids
         return fd.convert_nodal2elemental(data, calc_average=True), eids
-    v = np.array([q['values'][str(e)] for e in eids], dtype=float)
+    v = np.array([q['values'][str(e)] for e in eids], dtype=DT[q.get('vdtype', 'float')])
     if q.get('drop_last'):
         v = v[:-1]
     kw = {'mode': q['mode'], 'order1_only': q['order1']}
     if q['weight'] == 'false':
         kw['weight'] = False
     elif q['weight'] == 'explicit':
-        kw['weight'] = np.array([[q['weights'][str(e)]] for e in eids], dtype=float)
+        kw['weight'] = np.array([[q['weights'][str(e)]] for e in eids],
+                                dtype=DT[q.get('wdtype', 'float')])
     return fd.convert_elemental2nodal(v, **kw), eids
 
 
